@@ -54,7 +54,20 @@ type c12Prog struct {
 	// holds the shared key): patches to {next, refs} before sealing, or an arbitrary value sealed instead
 	Inner    []patch `json:"inner,omitempty"`
 	InnerArb *Val    `json:"innerArb,omitempty"`
+	Opts     int     `json:"opts,omitempty"`  // options of the loaders: bit 0 - LogOptions.ID left empty; bit 1 - LogOptions.IO left unset (default codec)
 	Debug    bool    `json:"debug,omitempty"` // the codecs run with their debug switch on (SetDebug(true)); output goes to /dev/null
+}
+
+// logOpts are the options a loader is called with: a fresh object per call (the loaders fill in what was left out).
+func (p c12Prog) logOpts(io iface.IO, isDefault bool) *ipfslog.LogOptions {
+	lo := &ipfslog.LogOptions{ID: "verif-log", IO: io}
+	if p.Opts&1 != 0 {
+		lo.ID = ""
+	}
+	if p.Opts&2 != 0 && isDefault && !p.Debug {
+		lo.IO = nil
+	}
+	return lo
 }
 
 var innerPaths = []string{"next", "refs", "next[0]", "refs[0]", "next[1]", "next[2]", "+extra"}
@@ -73,6 +86,7 @@ func genC12(t *rapid.T) c12Prog {
 		Chain:  rapid.IntRange(2, 6).Draw(t, "chain"),
 		Loader: rapid.IntRange(0, 1).Draw(t, "loader"),
 		Conc:   rapid.SampledFrom([]int{0, 0, 1, 2, 3}).Draw(t, "conc"),
+		Opts:   rapid.SampledFrom([]int{0, 0, 1, 2, 3}).Draw(t, "loaderOpts"),
 		Extra:  rapid.SampledFrom([]int{0, 0, 1, 2, 3}).Draw(t, "extra"),
 		Debug:  rapid.IntRange(0, 49).Draw(t, "debug") == 31,
 	}
@@ -633,7 +647,7 @@ func runC12(tb ev.TB, p c12Prog) ev.Result {
 	}
 	var loaded *ipfslog.IPFSLog
 	var lerr error
-	lo := &ipfslog.LogOptions{ID: "verif-log", IO: cborIO}
+	lo := p.logOpts(cborIO, true)
 	if p.Loader == 0 {
 		mustReturn(tb, "NewFromEntryHash over a log containing the block", func() {
 			loaded, lerr = ipfslog.NewFromEntryHash(ctx, st.API(), world.Identity(0), head.GetHash(), lo, &ipfslog.FetchOptions{Concurrency: p.Conc})
@@ -679,22 +693,22 @@ func runC12(tb ev.TB, p c12Prog) ev.Result {
 	// a hostile manifest as the thing being loaded
 	if p.Shape == "manifest" || p.Shape == "arbitrary" || p.Shape == "entry" {
 		safely(tb, "NewFromMultihash of the hostile block itself", func() {
-			_, _ = ipfslog.NewFromMultihash(ctx, st.API(), world.Identity(0), hc, &ipfslog.LogOptions{ID: "verif-log", IO: cborIO}, &ipfslog.FetchOptions{})
+			_, _ = ipfslog.NewFromMultihash(ctx, st.API(), world.Identity(0), hc, p.logOpts(cborIO, true), &ipfslog.FetchOptions{})
 		})
 		safely(tb, "NewFromEntryHash of the hostile block itself", func() {
-			_, _ = ipfslog.NewFromEntryHash(ctx, st.API(), world.Identity(0), hc, &ipfslog.LogOptions{ID: "verif-log", IO: cborIO}, &ipfslog.FetchOptions{})
+			_, _ = ipfslog.NewFromEntryHash(ctx, st.API(), world.Identity(0), hc, p.logOpts(cborIO, true), &ipfslog.FetchOptions{})
 		})
 	}
 	if p.Shape == "pb-manifest" || p.Shape == "pb-entry" {
 		safely(tb, "legacy loaders of the hostile block itself", func() {
-			_, _ = ipfslog.NewFromMultihash(ctx, st.API(), world.Identity(0), hc, &ipfslog.LogOptions{ID: "verif-log", IO: pbIO}, &ipfslog.FetchOptions{})
-			_, _ = ipfslog.NewFromEntryHash(ctx, st.API(), world.Identity(0), hc, &ipfslog.LogOptions{ID: "verif-log", IO: pbIO}, &ipfslog.FetchOptions{})
+			_, _ = ipfslog.NewFromMultihash(ctx, st.API(), world.Identity(0), hc, p.logOpts(pbIO, false), &ipfslog.FetchOptions{})
+			_, _ = ipfslog.NewFromEntryHash(ctx, st.API(), world.Identity(0), hc, p.logOpts(pbIO, false), &ipfslog.FetchOptions{})
 		})
 	}
 	// the loaders of a reader that holds the link key decode the block on fetch goroutines too
 	if p.Shape == "entry-linkkey" || p.Shape == "entry-linkkey-inner" {
 		safely(tb, "NewFromEntryHash (link-key reader) over a log containing the block", func() {
-			_, _ = ipfslog.NewFromEntryHash(ctx, st.API(), world.Identity(0), head.GetHash(), &ipfslog.LogOptions{ID: "verif-log", IO: linkIO}, &ipfslog.FetchOptions{})
+			_, _ = ipfslog.NewFromEntryHash(ctx, st.API(), world.Identity(0), head.GetHash(), p.logOpts(linkIO, false), &ipfslog.FetchOptions{})
 		})
 	}
 	nt := gerr == nil && (p.Shape != "arbitrary" || val.K == "map")
@@ -713,7 +727,7 @@ var _ format.Node
 
 func TestC12(t *testing.T) {
 	c := ev.Get("C12")
-	c.Rule = "structured generation: the valid CBOR map of an entry / manifest (or the legacy JSON-in-protobuf shape) with 1-3 patches, each deleting, nulling or replacing one field (top-level, nested clock/identity/signatures fields, list elements, extra fields) by a generated value of any kind (ints incl. 2^63/2^64-1, negatives, strings incl. non-hex and invalid UTF-8, bytes, bools, floats incl. NaN/Inf, undefined, lists, maps, tags, valid and malformed tag-42 links), canonical or written key order; or an arbitrary generated value; for link-key entries also hostile link lists sealed with the readers' own shared key (patched {next, refs} with malformed / empty tag-42 links, wrong kinds, or an arbitrary value) inside an otherwise honest block. The block is stored under its true CID; every codec's DecodeRawEntry/DecodeRawJSONLog is called on it and, on success, every accessor, clock method, Verify (3 codecs), Equals, IsParent, IsValid, Copy, ToHashable, Normalize, the four comparators, re-encoding, FindHeads/FindChildren and a log built over the entry (Values, Heads, ToString, Join) — each under recover(), a panic is the violation. Then a healthy signed chain naming the block in next or refs at a generated position is loaded by entry hash or manifest and must contain every healthy entry (plus the block only if it decodes); the hostile block itself is also given to the loaders. Non-trivial = the block passes the DAG layer and is a map (decodes at the CBOR level but deviates from the schema); distinct = distinct program. Byte-level inputs: native fuzz target FuzzC12Decode (thorough tier, corpus replayed in quick)."
+	c.Rule = "structured generation: the valid CBOR map of an entry / manifest (or the legacy JSON-in-protobuf shape) with 1-3 patches, each deleting, nulling or replacing one field (top-level, nested clock/identity/signatures fields, list elements, extra fields) by a generated value of any kind (ints incl. 2^63/2^64-1, negatives, strings incl. non-hex and invalid UTF-8, bytes, bools, floats incl. NaN/Inf, undefined, lists, maps, tags, valid and malformed tag-42 links), canonical or written key order; or an arbitrary generated value; for link-key entries also hostile link lists sealed with the readers' own shared key (patched {next, refs} with malformed / empty tag-42 links, wrong kinds, or an arbitrary value) inside an otherwise honest block. The block is stored under its true CID; every codec's DecodeRawEntry/DecodeRawJSONLog is called on it and, on success, every accessor, clock method, Verify (3 codecs), Equals, IsParent, IsValid, Copy, ToHashable, Normalize, the four comparators, re-encoding, FindHeads/FindChildren and a log built over the entry (Values, Heads, ToString, Join) — each under recover(), a panic is the violation. Then a healthy signed chain naming the block in next or refs at a generated position is loaded by entry hash or manifest and must contain every healthy entry (plus the block only if it decodes); the hostile block itself is also given to the loaders; the loaders are called with and without a log id and with and without an explicit codec (LogOptions.ID, LogOptions.IO). Non-trivial = the block passes the DAG layer and is a map (decodes at the CBOR level but deviates from the schema); distinct = distinct program. Byte-level inputs: native fuzz target FuzzC12Decode (thorough tier, corpus replayed in quick)."
 	c.Assumptions = []string{"a block that decodes without error counts as an entry (possibly nonsensical) and may be part of the loaded log; only undecodable blocks must be skipped", "panics on goroutines the library starts cannot be recovered in-process: the direct decode checks run first on the test goroutine, the loaders second; the driver attributes a process crash to the last case written (write-ahead file)"}
 	ev.Check(t, "C12", genC12, runC12)
 }
